@@ -109,6 +109,9 @@ pub mod ev {
     pub const REDEFER: u32 = 5;
     /// A list element (`addr`) was handed to `IsElement::finalize`.
     pub const LIST_FINALIZE: u32 = 6;
+    /// The registry scan has unlinked the entry (`addr`) of an exited participant and is about
+    /// to defer its destruction.
+    pub const REGISTRY_UNLINK: u32 = 7;
 }
 
 pub use crate::ebr_impl::verif_local_state as local_state;
